@@ -14,6 +14,25 @@ open AmVerif.Gen AmVerif.Model
 
 /-! ## The mechanism, from the source -/
 
+/-- `record` and `no_record` install their frame with `CellGuard::replace` before running the closure;
+the guard's `Drop` puts the previous value back (so also on unwinding). -/
+theorem skel_record_guards :
+    skel_hot_reloading_records_record = [.closure [.call .s_replace, .call .s_f], .call .s_with] ∧
+    skel_hot_reloading_records_no_record = [.closure [.call .s_replace, .call .s_f], .call .s_with] ∧
+    skel_hot_reloading_records_CellGuard_replace = [.call .s_replace] ∧
+    skel_hot_reloading_records_Drop_for_CellGuard_drop = [.call .s_set] := ⟨rfl, rfl, rfl, rfl⟩
+
+/-- A look-up records the asset whether or not it is cached (before returning), `load_owned` records
+it before loading, and `load_and_record` runs the loader inside `record` and then either registers
+the asset or hands the failed load's reads to the enclosing record. -/
+theorem skel_lookups_record :
+    skel_anycache_Cache_for_T_get_cached_entry_inner =
+      [.branch [[.branch [[.call .s_get, .branch [[], []], .call .s_add_record, .ret], []]], []], .call .s_get] ∧
+    skel_anycache_Cache_for_T_load_owned_entry = [.branch [[.branch [[.call .s_add_record], []]], []], .call .s_load_and_record] ∧
+    skel_asset_load_and_record = [.branch [[.branch [[.call .s_record, .branch [[.call .s_add_asset], [.call .s_add_records]], .ret], []]], []]] ∧
+    skel_hot_reloading_records_add_record = [.closure [.call .s_get, .branch [[.call .s_insert_asset], []]], .call .s_with] :=
+  ⟨rfl, rfl, rfl, rfl⟩
+
 /-- A read or look-up touches the top frame only, and only if it is recording. -/
 theorem C14_record_top_only (s : St) (d : Dep) :
     (s.record true d).recs =
